@@ -6,10 +6,14 @@ import (
 	"fmt"
 	"math/rand"
 	"os"
+	"regexp"
 	"sort"
+	"sync"
 	"time"
 
+	"github.com/bmeg/grip/gdbi"
 	"github.com/bmeg/grip/gripql"
+	"github.com/bmeg/grip/util"
 	"google.golang.org/protobuf/types/known/structpb"
 
 	"gripverif/internal/coq"
@@ -34,17 +38,23 @@ type c18Elem struct {
 type c18Input struct {
 	Stream []c18Elem `json:"stream"`
 	Driver string    `json:"driver"`
+	BatchK int       `json:"batch_k"`
 }
 type c18Graph struct {
 	Vertices []c17Elem `json:"vertices"`
 	Edges    []c17Elem `json:"edges"`
 }
 type c18Obs struct {
-	Ins, Err         int32
-	Bulk, Seq        map[string]c18Graph
-	SeqOK, SeqFailed int
-	Error            string `json:"error,omitempty"`
+	Ins, Err           int32
+	Bulk, Seq          map[string]c18Graph
+	BulkAnon, SeqAnon  map[string]int // edges stored under a generated id, per graph
+	SeqOK, SeqFailed   int
+	BatchK             int
+	VBatches, EBatches [][]int // util.StreamBatch: payloads of the batches given to vertexAdd / edgeAdd
+	Error              string `json:"error,omitempty"`
 }
+
+var c18KnownID = regexp.MustCompile(`^(v|e|b)[0-9]+$|^x$|^y$`)
 
 var c18Graphs = []string{"g1", "g2"}
 
@@ -68,8 +78,9 @@ func (e c18Elem) proto() *gripql.GraphElement {
 	return ge
 }
 
-func dumpGraphs(env *srvEnv) map[string]c18Graph {
+func dumpGraphs(env *srvEnv) (map[string]c18Graph, map[string]int) {
 	out := map[string]c18Graph{}
+	anon := map[string]int{}
 	ctx := context.Background()
 	for _, g := range c18Graphs {
 		gi, err := env.db.Graph(g)
@@ -89,13 +100,20 @@ func dumpGraphs(env *srvEnv) map[string]c18Graph {
 			if x, ok := e.Data["val"].(float64); ok {
 				val = int(x)
 			}
+			if !c18KnownID.MatchString(e.ID) {
+				anon[g]++
+				continue
+			}
 			gr.Edges = append(gr.Edges, c17Elem{ID: e.ID, Label: e.Label, Val: val, From: e.From, To: e.To})
 		}
 		sort.Slice(gr.Vertices, func(a, b int) bool { return gr.Vertices[a].ID < gr.Vertices[b].ID })
 		sort.Slice(gr.Edges, func(a, b int) bool { return gr.Edges[a].ID < gr.Edges[b].ID })
 		out[g] = gr
+		if _, ok := anon[g]; !ok {
+			anon[g] = 0
+		}
 	}
-	return out
+	return out, anon
 }
 
 func bulkWorker(req json.RawMessage) interface{} {
@@ -123,7 +141,7 @@ func bulkWorker(req json.RawMessage) interface{} {
 	if bs.res != nil {
 		ob.Ins, ob.Err = bs.res.InsertCount, bs.res.ErrorCount
 	}
-	ob.Bulk = dumpGraphs(env)
+	ob.Bulk, ob.BulkAnon = dumpGraphs(env)
 	env.close()
 	// one at a time
 	env2, err := newSrvEnv(in.Driver)
@@ -155,14 +173,52 @@ func bulkWorker(req json.RawMessage) interface{} {
 		}
 		ob.SeqFailed += failed
 	}
-	ob.Seq = dumpGraphs(env2)
+	ob.Seq, ob.SeqAnon = dumpGraphs(env2)
 	env2.close()
+	// util.StreamBatch (the batching used by the drivers that batch) on the g1 elements of the same stream
+	ob.BatchK = in.BatchK
+	ob.VBatches, ob.EBatches = [][]int{}, [][]int{}
+	ch := make(chan *gdbi.GraphElement, len(in.Stream)+1)
+	for _, e := range in.Stream {
+		if e.Graph == "g1" {
+			ch <- gdbi.NewGraphElement(e.proto())
+		}
+	}
+	close(ch)
+	payload := func(d map[string]interface{}) int {
+		if x, ok := d["val"].(float64); ok {
+			return int(x)
+		}
+		return -1
+	}
+	var mu sync.Mutex
+	util.StreamBatch(ch, in.BatchK, "g1",
+		func(vs []*gdbi.Vertex) error {
+			b := []int{}
+			for _, v := range vs {
+				b = append(b, payload(v.Data))
+			}
+			mu.Lock()
+			ob.VBatches = append(ob.VBatches, b)
+			mu.Unlock()
+			return nil
+		},
+		func(es []*gdbi.Edge) error {
+			b := []int{}
+			for _, e := range es {
+				b = append(b, payload(e.Data))
+			}
+			mu.Lock()
+			ob.EBatches = append(ob.EBatches, b)
+			mu.Unlock()
+			return nil
+		})
 	return ob
 }
 
 func c18Stream(rng *rand.Rand, n int) []c18Elem {
 	out := []c18Elem{}
-	graphs := []string{"g1", "g1", "g1", "g2", "g2", "nope", "g1__schema__"}
+	graphs := []string{"g1", "g1", "g1", "g2", "g2", "nope", "g1__schema__", ""}
 	g := graphs[rng.Intn(len(graphs))]
 	for i := 0; i < n; i++ {
 		if rng.Intn(4) == 0 { // runs of one graph, then a switch
@@ -197,6 +253,10 @@ func c18Stream(rng *rand.Rand, n int) []c18Elem {
 			default:
 				e.Keys = []string{"_from"}
 			}
+		case r < 18 && rng.Intn(2) == 0: // an edge without id: it gets a generated one
+			k := rng.Intn(6)
+			e.IsEdge = true
+			e.Gid, e.Label, e.From, e.To = "", "E", fmt.Sprintf("v%d", k), fmt.Sprintf("v%d", k+1)
 		case r < 18: // valid with extra fields
 			e.IsVertex = true
 			e.Gid, e.Label, e.Keys = fmt.Sprintf("v%d", rng.Intn(12)), "L0", []string{"name", "w"}
@@ -216,7 +276,7 @@ func runC18(ctx *Ctx) error {
 	ctx.CaseTy = "c18_case"
 	ctx.Shard = 25
 	ctx.Scope = "N_scope"
-	ctx.Rule = "element streams through the server's BulkAdd (fake client stream, in-process server, badger and pebble) and the same elements through AddVertex/AddEdge one at a time on a second fresh server: lengths 0,1,2,49,50,51,99,100,101,150,260 and random lengths, runs of elements for g1/g2 interleaved with a missing graph and a schema graph, 12 vertex ids and 6 edge ids reused throughout (later writes overwrite earlier ones), invalid vertices (empty gid/label, reserved or malformed field names), invalid edges (empty label/from/to, reserved field), elements with neither or both of vertex and edge; observed: InsertCount/ErrorCount, the vertices and edges of both graphs after each way of loading, acknowledged and refused single adds; non-trivial = a stream that switches graph at least twice and contains an invalid element; distinct by input"
+	ctx.Rule = "element streams through the server's BulkAdd (fake client stream, in-process server, badger and pebble) and the same elements through AddVertex/AddEdge one at a time on a second fresh server: lengths 0,1,2,49,50,51,99,100,101,150,260 and random lengths, exact multiples of the batch size, runs of elements for g1/g2 interleaved with a missing graph and a schema graph, 12 vertex ids and 6 edge ids reused throughout (later writes overwrite earlier ones), invalid vertices (empty gid/label, reserved or malformed field names), invalid edges (empty label/from/to, reserved field), elements with neither or both of vertex and edge, edges without id; the g1 elements of every stream also go through util.StreamBatch with batch sizes 1..50 and recording callbacks; observed: the batches it hands out, InsertCount/ErrorCount, the vertices and edges of both graphs after each way of loading, acknowledged and refused single adds; non-trivial = a stream that switches graph at least twice and contains an invalid element; distinct by input"
 	var inputs []c18Input
 	if ctx.Replay != nil {
 		var in c18Input
@@ -230,7 +290,20 @@ func runC18(ctx *Ctx) error {
 			if i%2 == 1 {
 				drv = "pebble"
 			}
-			inputs = append(inputs, c18Input{Stream: c18Stream(ctx.Rng, n), Driver: drv})
+			inputs = append(inputs, c18Input{Stream: c18Stream(ctx.Rng, n), Driver: drv, BatchK: []int{50, 1, 7, 25}[i%4]})
+		}
+		// exact multiples of the batch size for util.StreamBatch: k valid vertices / edges of g1 in a row
+		for _, k := range []int{1, 2, 5, 50} {
+			for _, mult := range []int{1, 2, 3} {
+				st := []c18Elem{}
+				for j := 0; j < k*mult; j++ {
+					st = append(st, c18Elem{Graph: "g1", IsVertex: true, Gid: fmt.Sprintf("v%d", j%12), Label: "L0", Val: j + 1})
+				}
+				for j := 0; j < k*mult; j++ {
+					st = append(st, c18Elem{Graph: "g1", IsEdge: true, Gid: fmt.Sprintf("e%d", j%6), Label: "E", From: fmt.Sprintf("v%d", j%6), To: fmt.Sprintf("v%d", j%6+1), Val: 1000 + j})
+				}
+				inputs = append(inputs, c18Input{Stream: st, Driver: "badger", BatchK: k})
+			}
 		}
 		m := ctx.Pick(40, 400)
 		for i := 0; i < m; i++ {
@@ -238,7 +311,7 @@ func runC18(ctx *Ctx) error {
 			if i%3 == 2 {
 				drv = "pebble"
 			}
-			inputs = append(inputs, c18Input{Stream: c18Stream(ctx.Rng, ctx.Rng.Intn(70)), Driver: drv})
+			inputs = append(inputs, c18Input{Stream: c18Stream(ctx.Rng, ctx.Rng.Intn(70)), Driver: drv, BatchK: 1 + ctx.Rng.Intn(9)})
 		}
 	}
 	reqs := make([]json.RawMessage, len(inputs))
@@ -249,6 +322,7 @@ func runC18(ctx *Ctx) error {
 	os.Setenv("TMPDIR", root)
 	defer os.RemoveAll(root)
 	res := runIsolated("bulk", reqs, 8, 120*time.Second)
+	rerunFailed("bulk", reqs, res, 120*time.Second)
 	os.Unsetenv("TMPDIR")
 	for i, in := range inputs {
 		var ob c18Obs
@@ -298,12 +372,35 @@ func runC18(ctx *Ctx) error {
 			ins, errc = 999999, 999999
 		}
 		cc := coq.Record("c_exists", coq.StrList(c18Graphs), "c_stream", coq.List(elems), "o_ins", fmt.Sprint(ins), "o_err", fmt.Sprint(errc),
-			"o_bulk", tab(ob.Bulk), "o_seq", tab(ob.Seq), "o_seq_ok", fmt.Sprint(ob.SeqOK), "o_seq_failed", fmt.Sprint(ob.SeqFailed))
+			"o_bulk", tab(ob.Bulk), "o_seq", tab(ob.Seq), "o_seq_ok", fmt.Sprint(ob.SeqOK), "o_seq_failed", fmt.Sprint(ob.SeqFailed),
+			"o_bulk_anon", anonCoq(ob.BulkAnon), "o_seq_anon", anonCoq(ob.SeqAnon), "c_batch", fmt.Sprintf("%d%%nat", in.BatchK),
+			"o_vbatches", batchesCoq(ob.VBatches), "o_ebatches", batchesCoq(ob.EBatches))
 		key, _ := json.Marshal(in)
 		ctx.Add(Case{Input: in, Observed: ob, Coq: cc, Nontrivial: switches >= 2 && invalid, Key: string(key),
 			Tags: []string{"driver=" + in.Driver, fmt.Sprintf("len=%d", len(in.Stream))}})
 	}
 	return nil
+}
+
+func anonCoq(m map[string]int) string {
+	items := []string{}
+	for _, g := range c18Graphs {
+		if n, ok := m[g]; ok {
+			items = append(items, fmt.Sprintf("(%s, %d%%nat)", coq.Str(g), n))
+		}
+	}
+	return coq.List(items)
+}
+func batchesCoq(bs [][]int) string {
+	items := make([]string, len(bs))
+	for i, b := range bs {
+		xs := make([]string, len(b))
+		for j, x := range b {
+			xs[j] = fmt.Sprint(maxInt(x, 0))
+		}
+		items[i] = coq.List(xs)
+	}
+	return coq.List(items)
 }
 
 func maxInt(a, b int) int {
